@@ -462,22 +462,22 @@ def run(ctx):
 
     # (b) code -> spec: exhaustive short histories on the real pair, random long ones
     ex = [0, 0]
-    cfgs = ctx.pick([(1, 1), (2, 1), (2, 2), (3, 2)], [(w, p) for w in (1, 2, 3, 4) for p in (1, 2, 3)])
+    cfgs = ctx.pick([(1, 1), (2, 1), (2, 2), (3, 2)], [(1, 1), (2, 2), (3, 1), (3, 2), (4, 3)])
     for win, pkt in cfgs:
-        ts, st = explore({"win": win, "pkt": pkt}, ctx.pick(3, 4), sizes=ctx.pick((1, 3), (1, 2, 3)), adjs=ctx.pick((2,), (1, 2)))
+        ts, st = explore({"win": win, "pkt": pkt}, ctx.pick(3, 4), sizes=(1, 3), adjs=(2,))
         traces += ts
         ex[0] += st["states"]
         ex[1] += st["edges"]
     ctx.exhaustive = True
     ctx.extra["exhaustive_real"] = dict(window_packet_pairs=[list(c) for c in cfgs], max_app_calls=ctx.pick(3, 4), states=ex[0], edges=ex[1])
     ctx.log("exhaustive histories on the real pair: %d maximal paths (%d states, %d edges)" % (len(traces) - ncex, ex[0], ex[1]))
-    for i in range(ctx.pick(250, 20000)):
+    for i in range(ctx.pick(250, 8000)):
         cfg = {"win": ctx.rng.choice((1, 2, 3, 4, 5, 7, 8, 16, 33)), "pkt": ctx.rng.choice((1, 2, 3, 4, 5, 8, 16))}
         traces.append(random_history(ctx.rng, cfg, ctx.rng.randint(6, 60)))
     # (c) spec -> code
     behs = ctx.simulate("SshChannelSim", "SshChannelSim.cfg", num=ctx.pick(30, 1500), depth=18)
     ctx.rng.shuffle(behs)
-    behs = behs[:ctx.pick(150, 6000)]
+    behs = behs[:ctx.pick(150, 3000)]
     drift = 0
     for b in behs:
         ops = [["write", h["s"], h["n"]] if h["e"] == "write" else ["radjust", h["n"]] if h["e"] == "radjust" else [h["e"]] for h in b["hist"]]
